@@ -553,12 +553,14 @@ impl TaskEmitter {
         };
         *seq += 1;
 
-        #[cfg(rip_verif)]
-        rip_kernel::verif::point("emit.publish");
-        let _ = self.sender.send(event.clone());
+        // Publish and record under the buffer lock: a subscriber takes its snapshot under the
+        // same lock, so it can never fall between the send and the push and miss the frame.
         #[cfg(rip_verif)]
         rip_kernel::verif::point("emit.lock");
         let mut guard = self.events.lock().await;
+        #[cfg(rip_verif)]
+        rip_kernel::verif::point("emit.publish");
+        let _ = self.sender.send(event.clone());
         #[cfg(rip_verif)]
         rip_kernel::verif::point("emit.record");
         guard.push(event.clone());
